@@ -521,6 +521,7 @@ type ttCase struct {
 	pes      []ttPES
 	auto     bool // page option 0
 	wellForm bool
+	varCode  bool // the national option changes between instances of the page: no single-code ground truth
 }
 
 func (c ttCase) pageOpt() int {
@@ -663,6 +664,13 @@ func genTTCase(r *rng, level int) ttCase {
 		if !c.auto && r.chance(1, 4) {
 			h.subtitle = false // an explicitly selected page need not be flagged
 		}
+		if level >= 1 && !useX28 && !useM29 && r.chance(1, 4) {
+			// the national option (C12-C14) may change from one transmission of the page to the next
+			h.code = r.intn(8)
+			if h.code != s.code {
+				c.varCode = true
+			}
+		}
 		m.add(pts, subUnit(ttPacket(s.mag, 0, h.data(), lineByte(r))))
 		selected = true
 		nrows := 1 + r.intn(4)
@@ -740,6 +748,9 @@ func genTTCase(r *rng, level int) ttCase {
 }
 
 func (c ttCase) gTokens() string {
+	if c.varCode {
+		return ""
+	}
 	f, l := c.firstLast()
 	return c.sched.expected(f, l)
 }
